@@ -52,7 +52,30 @@ def check_project(proj, hide_undoc):
                     elif not hidden and not sel:
                         bad.append((type(ent).__name__, ent.name, l, getattr(x, "name", ""), x.permission,
                                     f"unselected entity left in list (display={ent.display}, hide_undoc={hide_undoc}, documented={bool(x.doc_list)})"))
+    # project-level lists that get pages of their own: only entities whose whole chain of parents is displayed
+    for lst in ("procedures", "types", "absinterfaces", "namelists", "submodprocedures"):
+        for x in getattr(proj, lst, []):
+            a, chain_ok = x, True
+            while a is not None:
+                if not getattr(a, "visible", True):
+                    chain_ok = False
+                a = getattr(a, "parent", None)
+            if not chain_ok:
+                bad.append(("Project", lst, getattr(x, "name", ""), getattr(getattr(x, "parent", None), "name", ""), "an entity below an undisplayed parent is in a project list that gets pages"))
     return bad
+
+
+def hidden_procedure_namelist():
+    """a namelist inside a procedure that display hides must not get a page (the project list is filled at parse time)"""
+    text = ("module m\n  implicit none\n  private\n  public :: pub\ncontains\n  subroutine pub()\n    !! public one\n    integer :: a\n    namelist /pubnml/ a\n"
+            "  end subroutine pub\n  subroutine hidden()\n    !! hidden one\n    integer :: b\n    namelist /hidnml/ b\n  end subroutine hidden\nend module m\n")
+    for st in (dict(display=["public", "protected"]), dict(display=["public", "protected"], proc_internals=True)):
+        proj = realrun.build_project({"src/m.f90": text}, **st)
+        bad = check_project(proj, False)
+        if bad:
+            return {"confirmed": True, "input": {"source": text, "settings": st}, "actual": bad[:3], "expected": "no page for the namelist of the private procedure `hidden`",
+                    "how": "real pipeline; project lists vs the visibility of every ancestor"}
+    return None
 
 
 def cases():
@@ -66,6 +89,9 @@ def cases():
 
 
 def search(limit=None):
+    hit = hidden_procedure_namelist()
+    if hit:
+        return hit
     n = 0
     for prog, st in cases():
         text = unit_text(**prog)
